@@ -353,6 +353,16 @@ class DirtyCache(Component):
                 cur = state.get(key)
                 if cur is None:
                     continue
+                if isinstance(cur, tuple) and cur[0] == "shift":
+                    # the vertices were moved by (target - centroid): the new centroid is `target` itself
+                    if ev.mode == "rebind" and rhs is not None and interp.val_id(rhs) == cur[1]:
+                        state[key] = "clean"
+                        self.facts.append(("SHIFT", oid, ev.where()))
+                    elif ev.mode == "rebind" and not own:
+                        state[key] = "clean"
+                    else:
+                        state[key] = "dirty"
+                    continue
                 if ev.mode == "inplace" and ev.op in ("Mult", "Div"):
                     if isinstance(cur, tuple) and cur[0] == "pend":
                         self._check_cov(ev, key, cur, rhs, ev.op, state, scalar_factor=True)
@@ -397,6 +407,11 @@ class DirtyCache(Component):
                     self.facts.append(("ROT-1", oid, ev.where()))
             elif "orth" in mtags:
                 self.rot_sites.append((ev, "kabsch", None))
+        shift = None
+        if kind == "translate" and ev.mode == "inplace" and ev.op == "Add" and ev.rhs is not None:
+            for tg in ev.rhs.tags:
+                if isinstance(tg, tuple) and tg[0] == "shift-to" and oid in tg[2]:
+                    shift = tg[1]
         for key in list(state):
             if key == "__det" or key[0] != oid:
                 continue
@@ -404,6 +419,9 @@ class DirtyCache(Component):
             eff = cache_effect(c, p, attr, kind)
             cur = state[key]
             if eff == "inv" or cur in ("unset", "absent"):
+                continue
+            if c == "_centroid" and shift is not None and cur == "clean":
+                state[key] = ("shift", shift)
                 continue
             if isinstance(eff, tuple) and eff[0] == "pend":
                 if cur == "clean":
